@@ -269,6 +269,41 @@ fn gen_log_world(seed: u64, idx: usize) -> LogWorldScenario {
     LogWorldScenario { spec, script, shows, listener }
 }
 
+/// One two-command world in six gets command names that differ only in one character outside [A-Za-z0-9._-]
+/// (`lint:fix` / `lint_fix`, `gen proto` / `gen+proto`, ...): whatever a tool does with such names on disk, the two
+/// commands' logs must not end up in one place. Own generator, applied to the finished scenario, so that existing
+/// seeds keep their worlds otherwise.
+fn odd_command_names(sc: &mut LogWorldScenario, seed: u64, idx: usize) {
+    let mut rng = Rng::new(scenario_seed(seed, "C08w-names", idx));
+    let has = |c: &str| sc.spec.cmd_files.iter().any(|f| f.command == c);
+    if !(has("build") && has("test")) || !rng.chance(1, 6) {
+        return;
+    }
+    let (a, b) = *rng.pick(&[("lint:fix", "lint_fix"), ("gen proto", "gen+proto"), ("a@b", "a#b"), ("x=1", "x~1"), ("pre,post", "pre;post")]);
+    let (a, b) = if rng.chance(1, 2) { (a, b) } else { (b, a) };
+    let ren = |c: &mut String| {
+        if c == "build" {
+            *c = a.to_string();
+        } else if c == "test" {
+            *c = b.to_string();
+        }
+    };
+    for f in sc.spec.cmd_files.iter_mut() {
+        ren(&mut f.command);
+        f.rel = WorldSpec::default_cmd_rel(&f.target, &f.command);
+    }
+    for (_, cs) in sc.spec.sequences.iter_mut() {
+        cs.iter_mut().for_each(ren);
+    }
+    sc.script.opts.commands.iter_mut().for_each(ren);
+    for bh in sc.script.behav.iter_mut() {
+        ren(&mut bh.command);
+    }
+    for (_, cs, _, _) in sc.shows.iter_mut() {
+        cs.iter_mut().for_each(ren);
+    }
+}
+
 /// stored log files of the latest run, decoded independently: (file, target, command) -> bytes
 pub fn stored_logs(w: &World, tr: &RunTrace, spec: &WorldSpec, commands: &[String]) -> Result<BTreeMap<(String, String, String), Vec<u8>>, String> {
     let doc = tr.result_json().ok_or("no result document")?;
@@ -498,7 +533,9 @@ impl Property for C08 {
         if idx < nb {
             json!({"engine": "vclock", "seed": scenario_seed(seed, "C08", 0), "start": idx * BATCH, "count": BATCH})
         } else {
-            json!({"engine": "world", "scenario": serde_json::to_value(gen_log_world(seed, idx - nb)).unwrap()})
+            let mut sc = gen_log_world(seed, idx - nb);
+            odd_command_names(&mut sc, seed, idx - nb);
+            json!({"engine": "world", "scenario": serde_json::to_value(sc).unwrap()})
         }
     }
     fn execute(&self, v: &Value) -> Outcome {
